@@ -32,6 +32,10 @@ pub const CL_ADMIN_COMM: u32 = 0x3C;
 pub const CL_ACL: u32 = 0x1F;
 pub const CL_GRP_KEY: u32 = 0x3F;
 
+/// Whether devices also run the job that flushes the CASE resumption cache to the store (a store
+/// operation 500 ms after a change of the cache). Process-wide: set by the checks that observe it.
+pub static PERSIST_RESUMPTION: std::sync::atomic::AtomicBool = std::sync::atomic::AtomicBool::new(false);
+
 const NODE: Node<'static> = Node { endpoints: &[root_endpoint!(eth)] };
 
 /// One incarnation of the device: a `Matter` object re-hydrated from `kv`, its IM stack and the
@@ -40,6 +44,8 @@ pub struct Device {
     pub matter: Owned<Matter<'static>>,
     pub task: usize,
     pub boot_error: Rc<RefCell<Option<String>>>,
+    /// the Interaction Model state (subscription table, events)
+    pub im_state: Owned<EthInteractionModelState>,
     _keep: Vec<Box<dyn std::any::Any>>,
 }
 
@@ -75,9 +81,20 @@ pub fn boot(exec: &mut Exec, net: &Net, net_idx: usize, kv: &RecKv, seed: u64, o
             }
         }
         let responder = Responder::new_default(&im);
-        let _ = select3(md.run(&c, send, recv, NoNetwork), responder.run::<3>(), im.run()).await;
+        if PERSIST_RESUMPTION.load(std::sync::atomic::Ordering::Relaxed) {
+            // (the resumption cache is flushed to the store by a background job of its own, as in the examples)
+            // (the job returns when the store fails: the application starts it again)
+            let flush = async {
+                loop {
+                    let _ = md.run_persist_resumption(&kvh, embassy_time::Duration::from_millis(500)).await;
+                }
+            };
+            let _ = embassy_futures::select::select4(md.run(&c, send, recv, NoNetwork), responder.run::<3>(), im.run(), flush).await;
+        } else {
+            let _ = select3(md.run(&c, send, recv, NoNetwork), responder.run::<3>(), im.run()).await;
+        }
     });
-    Device { matter, task, boot_error, _keep: vec![Box::new(buffers), Box::new(state)] }
+    Device { matter, task, boot_error, im_state: state, _keep: vec![Box::new(buffers)] }
 }
 
 /// Start a node from this store content, factory-reset it (Matter level and Interaction Model
